@@ -210,21 +210,82 @@ mutual
       | .boolean => if raw = str "true" then some (.bool true) else if raw = str "false" then some (.bool false) else none
       | .null => some .nil
       | .list => (literalListSpec dflt vars children).map fun xs => .slice .iface xs
-      | .object => (literalObjectSpec dflt vars children).map fun kvs => .map .iface kvs
+      | .object => (literalObjectSpec dflt vars children .nil).map fun kvs => .map .iface kvs
   def literalListSpec (dflt : Name → Option GoVal) (vars : VarMap) : Children → Option GoVals
     | .nil => some .nil
     | .cons _ v _ rest =>
-      match literalSpec dflt vars v, literalListSpec dflt vars rest with
-      | some x, some xs => some (.cons x xs)
-      | _, _ => none
-  /-- fields in source order; a repeated name keeps the LAST value -/
-  def literalObjectSpec (dflt : Name → Option GoVal) (vars : VarMap) : Children → Option GoFields
-    | .nil => some .nil
-    | .cons n v _ rest =>
-      match literalSpec dflt vars v, literalObjectSpec dflt vars rest with
-      | some x, some kvs => some (if kvs.contains n then kvs else .cons n x kvs)
-      | _, _ => none
+      match literalSpec dflt vars v with
+      | some x => (literalListSpec dflt vars rest).map fun xs => .cons x xs
+      | none => none
+  /-- an input-object literal denotes a MAP: fields are entered in source order, a repeated name
+      keeps its last value (`acc` = the map built so far) -/
+  def literalObjectSpec (dflt : Name → Option GoVal) (vars : VarMap) : Children → GoFields → Option GoFields
+    | .nil, acc => some acc
+    | .cons n v _ rest, acc =>
+      match literalSpec dflt vars v with
+      | some x => literalObjectSpec dflt vars rest (acc.set n x)
+      | none => none
 end
+
+/- ---- hypotheses of the C15 theorems, as decidable predicates on literals ---- -/
+
+mutual
+  /-- every Int / Float / Boolean leaf of the literal converts (`strconv` succeeds on its text) -/
+  def convertsB : Value → Bool
+    | .mk kind raw children _ =>
+      match kind with
+      | .int => parseIntOk raw
+      | .float => parseFloatOk raw
+      | .boolean => (parseBool raw).isSome
+      | .list | .object => childrenConvertB children
+      | _ => true
+  def childrenConvertB : Children → Bool
+    | .nil => true
+    | .cons _ v _ rest => convertsB v && childrenConvertB rest
+end
+
+mutual
+  /-- no variable occurs in the literal (`Value[Const]`) -/
+  def constB : Value → Bool
+    | .mk kind _ children _ =>
+      match kind with
+      | .variable => false
+      | .list | .object => childrenConstB children
+      | _ => true
+  def childrenConstB : Children → Bool
+    | .nil => true
+    | .cons _ v _ rest => constB v && childrenConstB rest
+end
+
+/-- `-?[0-9]+` -/
+def intLexeme (raw : Bytes) : Bool :=
+  match raw with
+  | 45 :: ds => !ds.isEmpty && ds.all isDigit
+  | ds => !ds.isEmpty && ds.all isDigit
+
+mutual
+  /-- leaves are written as the lexer produces them: Int tokens are `-?[0-9]+`, Boolean tokens
+      are `true` / `false` -/
+  def wellLexedB : Value → Bool
+    | .mk kind raw children _ =>
+      match kind with
+      | .int => intLexeme raw
+      | .boolean => raw = str "true" || raw = str "false"
+      | .list | .object => childrenWellLexedB children
+      | _ => true
+  def childrenWellLexedB : Children → Bool
+    | .nil => true
+    | .cons _ v _ rest => wellLexedB v && childrenWellLexedB rest
+end
+
+/-- the defaults of the variable definitions are constant literals whose leaves convert -/
+def DefaultsConvert (vdefs : List VarDef) : Prop :=
+  ∀ d ∈ vdefs, ∀ dv, d.default = some dv → convertsB dv = true ∧ constB dv = true
+
+/-- every variable that has a default has an entry in the variables map (what coercion
+    establishes: C14_defaults) -/
+def DefaultsSupplied (vdefs : List VarDef) (vars : VarMap) : Prop :=
+  ∀ n d, findVarDef vdefs n = some d → d.default.isSome = true → vars.contains n = true
 
 /-- a constant literal (defaults): variables do not occur -/
 def constSpec (v : Value) : Option GoVal := literalSpec (fun _ => none) .nil v
@@ -246,7 +307,8 @@ def firstSome {α} : List (Option α) → Option α
 /-- the value of ONE declared argument: `none` = the argument is absent from the map;
     `some none` = a literal that denotes no value -/
 def argValueSpec (vdefs : List VarDef) (args : List Argument) (vars : VarMap) (d : ArgDef) : Option (Option GoVal) :=
-  let argDefault : Option (Option GoVal) := d.default.map constSpec
+  -- the argument's default is a literal like any other
+  let argDefault : Option (Option GoVal) := d.default.map (literalSpec (varDefaultSpec vdefs) vars)
   match findArg args d.name with
   | some a =>
     if a.value.kind = .variable then
@@ -258,6 +320,13 @@ def argValueSpec (vdefs : List VarDef) (args : List Argument) (vars : VarMap) (d
       -- the literal written
       some (literalSpec (varDefaultSpec vdefs) vars a.value)
   | none => argDefault
+
+/-- C15 "the arguments that have a value": a literal is written, or the variable written is in
+    the variables map, or the argument has a default -/
+def argHasValue (args : List Argument) (vars : VarMap) (d : ArgDef) : Bool :=
+  (match findArg args d.name with
+    | some a => if a.value.kind = .variable then vars.contains a.value.raw else true
+    | none => false) || d.default.isSome
 
 /-- C15: the argument map the specification prescribes (`none` when some literal denotes no value).
     Entries in declaration order. -/
